@@ -309,6 +309,10 @@ def check(ctx):
     r4(ctx, retsets)
     r5(ctx, retsets)
     r6(ctx, retsets)
+    from specs import C03
+    with ctx.shared({"C03.R2": ("C05.R7", "the serial number of End of Data is stored on every path that completes the response (unconditionally, "
+                                "whatever its value) and on no other path")}):
+        C03.r2_r3_r4(ctx, retsets)
     ctx.not_decided("serial-number arithmetic (none exists in the code: values are copied and compared for equality only)")
     ctx.not_decided("that the bytes reach the peer unchanged through a user transport")
 
